@@ -17,6 +17,8 @@ THEOREMS = [
     "IrVerif.Names.C15_fresh",
     "IrVerif.Names.C15_monotone",
     "IrVerif.Names.C15_loop_terminates",
+    "IrVerif.Names.C15_carried",
+    "IrVerif.Names.C15_graph_fresh",
     "IrVerif.Names.C15_explicit_kept",
     "IrVerif.Names.C15_namefix_total",
     "IrVerif.Names.C15_namefix_post",
@@ -26,7 +28,9 @@ THEOREMS = [
     "IrVerif.Names.C15_namefix_call_post",
     "IrVerif.Names.C15_namefix_call_keeps_unique",
     "IrVerif.Names.C15_namefix_call_idempotent",
+    "IrVerif.Names.C15_scoped_of_well_owned",
     "IrVerif.Names.C15_rename_values_atomic",
+    "IrVerif.Names.C15_rename_values_succeeds",
 ]
 ASSUMPTIONS = [
     "Python set/dict membership, dict insertion order and f-string decimal printing of int are modelled by list "
@@ -53,127 +57,290 @@ NODE_POOL = [f"node_{op}_{k}" for op in ("Add", "Mul", "Add_1", "") for k in ran
 
 
 class _Exec:
-    """Executes a history *script* (pure data, replayable) on a real `ir.Graph`, mirrors every call the
-    graph makes on its NameAuthority as one primitive model op, and evaluates the oracle."""
+    """Executes a history *script* (pure data, replayable) on a real `ir.Graph` (optionally wrapped in an
+    `ir.Function`), mirrors every way a name reaches the graph's NameAuthority as one graph-level model op
+    (`names.ghist`) and evaluates an oracle that does NOT look at the authority: a name the graph generates must
+    differ from every name any value / node owned by the graph carries or carried at an earlier step."""
 
     def __init__(self, ir):
         self.ir = ir
-        self.prim: list[list] = []  # model ops
-        self.after: list = []  # real names right after each primitive call
-        self.known = {"v": set(), "n": set()}  # every name registered or assigned so far (oracle)
+        self.values: list = []  # tracked values, creation order = model ids
+        self.nodes: list = []
+        self.vinit: list = []  # names at creation (model input)
+        self.ninit: list = []
+        self.gops: list[list] = []  # model ops
+        self.ever = {"v": set(), "n": set()}  # oracle: names carried by owned objects, at any step so far
         self.oracle_failures: list[tuple[str, str]] = []
-        self.g = None
+        self.g = None  # the Graph
+        self.api = None  # Graph or Function: node-level API
         self.detached: list = []
+        self.vowned: set[int] = set()
+        self.nowned: set[int] = set()
+        self.implicit = 0
+        self.gop_after: dict[int, str | None] = {}  # gop index of a registration -> the object's name afterwards
+
+    # -- tracking
+    def V(self, v):
+        for i, x in enumerate(self.values):
+            if x is v:
+                return i
+        self.values.append(v)
+        self.vinit.append(v.name)
+        return len(self.values) - 1
+
+    def N(self, n):
+        for i, x in enumerate(self.nodes):
+            if x is n:
+                return i
+        self.nodes.append(n)
+        self.ninit.append(n.name)
+        for v in n.outputs:
+            self.V(v)
+        return len(self.nodes) - 1
+
+    def new_value(self, name):
+        v = self.ir.Value(name=name)
+        self.V(v)
+        return v
 
     def node(self, spec):
         ir = self.ir
-        return ir.Node("", spec["op"], inputs=[], outputs=[ir.Value(name=n) for n in spec["outs"]], name=spec["name"])
+        ins = [None if i is None or i >= len(self.values) else self.values[i] for i in spec.get("ins", [])]
+        n = ir.Node("", spec["op"], inputs=ins, outputs=[ir.Value(name=x) for x in spec["outs"]], name=spec["name"])
+        self.N(n)
+        return n
 
-    # -- mirror of `_set_node_graph_to_self_and_assign_names` for a list of nodes
-    def before_add(self, nodes):
-        snap = []
+    def snapshot(self):
+        return [v.name for v in self.values], [n.name for n in self.nodes]
+
+    def reg_nodes(self, nodes):
         for n in nodes:
-            snap.append(("n", n, n.name, n.op_type))
+            self.gops.append(["rn", self.N(n), n.op_type])
             for v in n.outputs:
-                snap.append(("v", v, v.name, None))
-        return snap
+                self.gops.append(["rv", self.V(v)])
 
-    def after_add(self, opname, snap):
-        before = {k: set(s) for k, s in self.known.items()}
-        for kind, obj, old, op in snap:
-            self.prim.append(["n", old, op] if kind == "n" else ["v", old])
-            self.after.append(obj.name)
-            # oracle: the property itself, on the real objects
-            if old is None:
-                if obj.name is None or obj.name in before[kind]:
-                    self.oracle_failures.append(
-                        (f"authority:{opname}:generated-name-collides", f"generated {obj.name!r} was registered before")
-                    )
-            elif obj.name != old:
-                self.oracle_failures.append(
-                    (f"authority:{opname}:explicit-name-changed", f"{old!r} -> {obj.name!r}")
-                )
-            if obj.name is not None:
-                self.known[kind].add(obj.name)
-                before[kind].add(obj.name)  # names handed out within one call must differ too
+    def finish(self, opname, before, user_set=()):
+        """after one real operation: ownership diff -> drop ops; oracle on generated / explicit names"""
+        g = self.g
+        vb, nb = before
+        vown = {i for i, v in enumerate(self.values) if v.graph is g}
+        nown = {i for i, n in enumerate(self.nodes) if n.graph is g}
+        attached = {op[1] for op in self.gops[self._mark:] if op[0] in ("rv", "nv")}
+        for k in range(self._mark, len(self.gops)):
+            if self.gops[k][0] == "rv":
+                self.gop_after[k] = self.values[self.gops[k][1]].name
+            elif self.gops[k][0] == "rn":
+                self.gop_after[k] = self.nodes[self.gops[k][1]].name
+        for i in sorted(self.vowned - vown):
+            self.gops.append(["dv", i])
+        for i in sorted(self.nowned - nown):
+            self.gops.append(["dn", i])
+        self.implicit += len([i for i in vown - self.vowned - attached if self.values[i].name is not None])
+        self.vowned, self.nowned = vown, nown
+        # oracle (independent of the authority)
+        gen_now = {"v": set(), "n": set()}
+        for kind, objs, old in (("v", self.values, vb), ("n", self.nodes, nb)):
+            for i, o in enumerate(objs):
+                was = old[i] if i < len(old) else (self.vinit if kind == "v" else self.ninit)[i]
+                if (kind, i) in user_set:
+                    continue
+                if was is None and o.name is not None:
+                    if o.name in self.ever[kind] or o.name in gen_now[kind]:
+                        self.oracle_failures.append((f"authority:{opname}:generated-name-collides",
+                                                     f"generated {o.name!r} is/was carried by an object of the graph"))
+                    gen_now[kind].add(o.name)
+                elif was is not None and o.name != was:
+                    self.oracle_failures.append((f"authority:{opname}:explicit-name-changed", f"{was!r} -> {o.name!r}"))
+        for i in vown:
+            if self.values[i].name is not None:
+                self.ever["v"].add(self.values[i].name)
+        for i in nown:
+            if self.nodes[i].name is not None:
+                self.ever["n"].add(self.nodes[i].name)
 
     def step(self, op):
-        ir, g = self.ir, self.g
+        ir, g, api = self.ir, self.g, self.api
         kind = op[0]
+        self._mark = len(self.gops)
+        user_set = set()
         if kind == "Graph":
-            _, in_names, init_names, node_specs = op
-            inputs = [ir.Value(name=n) for n in in_names]
-            inits = [ir.Value(name=n) for n in init_names]
+            _, in_names, init_names, node_specs, out_specs, as_function = op
+            inputs = [self.new_value(n) for n in in_names]
+            inits = [self.new_value(n) for n in init_names]
             nodes = [self.node(sp) for sp in node_specs]
-            snap = [("v", v, v.name, None) for v in inputs + inits] + self.before_add(nodes)
-            self.g = ir.Graph(inputs, [], nodes=nodes, initializers=inits, name="g")
-            self.after_add("Graph", snap)
-        elif kind == "append":
-            n = self.node(op[1])
-            snap = self.before_add([n])
-            g.append(n)
-            self.after_add("append", snap)
-        elif kind == "extend":
-            ns = [self.node(sp) for sp in op[1]]
-            snap = self.before_add(ns)
-            g.extend(ns)
-            self.after_add("extend", snap)
-        elif kind in ("insert_before", "insert_after"):
-            _, anchor, specs, single = op
-            ns = [self.node(sp) for sp in specs]
-            snap = self.before_add(ns)
-            getattr(g, kind)(list(g)[anchor], ns[0] if single else ns)
-            self.after_add(kind, snap)
+            outs = []
+            for o in out_specs:
+                if o[0] == "new":
+                    outs.append(self.new_value(o[1]))
+                elif o[1] < len(nodes) and o[2] < len(nodes[o[1]].outputs):
+                    outs.append(nodes[o[1]].outputs[o[2]])
+            before = self.snapshot()
+            self.g = ir.Graph(inputs, outs, nodes=nodes, initializers=inits, name="g")
+            self.api = ir.Function("d", "f", "", graph=self.g, attributes=[]) if as_function else self.g
+            # the constructor fills inputs, outputs, initializers (each value joining a container is recorded),
+            # then names / registers inputs and initializers, then adds the nodes
+            for v in inputs + outs + inits:
+                self.gops.append(["nv", self.V(v)])
+            for v in inputs + inits:
+                self.gops.append(["rv", self.V(v)])
+            self.reg_nodes(nodes)
+            self.finish("Graph", before)
+            return
+        if kind in ("append", "extend", "insert_before", "insert_after", "node-graph"):
+            if kind == "append":
+                ns = [self.node(op[1])]
+            elif kind == "extend":
+                ns = [self.node(sp) for sp in op[1]]
+            elif kind == "node-graph":
+                ns = []
+            else:
+                ns = [self.node(sp) for sp in op[2]]
+            before = self.snapshot()
+            if kind == "append":
+                api.append(ns[0])
+            elif kind == "extend":
+                api.extend(ns)
+            elif kind == "node-graph":  # Node(..., graph=g) adds itself
+                sp = op[1]
+                ins = [None if i is None or i >= len(self.values) else self.values[i] for i in sp.get("ins", [])]
+                n = ir.Node("", sp["op"], inputs=ins, outputs=[ir.Value(name=x) for x in sp["outs"]], name=sp["name"], graph=g)
+                ni = self.N(n)  # tracked after construction: the names it was created with are the model's input
+                self.ninit[ni] = sp["name"]
+                for v, x in zip(n.outputs, sp["outs"]):
+                    self.vinit[self.V(v)] = x
+                before = (before[0] + [x for x in sp["outs"]], before[1] + [sp["name"]])
+                ns = [n]
+            else:
+                getattr(api, kind)(list(g)[op[1]], ns[0] if op[3] else ns)
+            self.reg_nodes(ns)
+            self.finish(kind, before)
         elif kind == "remove":
+            before = self.snapshot()
             n = list(g)[op[1]]
-            g.remove(n)
+            api.remove(n)
             self.detached.append(n)
+            self.finish(kind, before)
         elif kind == "readd":
             _, idx, rename, which, anchor = op
             n = self.detached.pop(idx)
-            if rename is not None:  # rename while detached: the new explicit name is what gets registered
+            if rename is not None:  # rename while detached: not owned, so only the re-add registers the new names
+                before = self.snapshot()
                 n.name = rename["name"]
+                self.gops.append(["sn", self.N(n), rename["name"]])
+                user_set.add(("n", self.N(n)))
                 for v, (do, nm) in zip(n.outputs, rename["outs"]):
                     if do:
                         v.name = nm
-            snap = self.before_add([n])
+                        self.gops.append(["sv", self.V(v), nm])
+                        user_set.add(("v", self.V(v)))
+                self.finish("rename-detached", before, user_set)
+                self._mark = len(self.gops)
+            before = self.snapshot()
             if which == "append":
-                g.append(n)
+                api.append(n)
             elif which == "extend":
-                g.extend([n])
+                api.extend([n])
             else:
-                g.insert_after(list(g)[anchor], n)
-            self.after_add("re-" + which, snap)
+                api.insert_after(list(g)[anchor], n)
+            self.reg_nodes([n])
+            self.finish("re-" + which, before)
         elif kind == "append-present":  # re-adding a node that is already in the graph registers its names again
+            before = self.snapshot()
             n = list(g)[op[1]]
-            snap = self.before_add([n])
-            g.append(n)
-            self.after_add("append-present", snap)
+            api.append(n)
+            self.reg_nodes([n])
+            self.finish(kind, before)
+        elif kind in ("in-append", "in-insert", "out-append"):
+            v = self.new_value(op[1]) if op[2] is None or op[2] >= len(self.values) else self.values[op[2]]
+            before = self.snapshot()
+            lst = g.outputs if kind == "out-append" else g.inputs
+            try:
+                if kind == "in-insert":
+                    lst.insert(0, v)
+                else:
+                    lst.append(v)
+                self.gops.append(["nv", self.V(v)])
+            except ValueError:  # e.g. a produced value cannot be a graph input: rejected, nothing registered
+                pass
+            self.finish(kind, before)
+        elif kind in ("in-pop", "out-pop"):
+            before = self.snapshot()
+            lst = g.outputs if kind == "out-pop" else g.inputs
+            if len(lst):
+                lst.pop(op[1] % len(lst))
+            self.finish(kind, before)
+        elif kind == "init-add":  # graph.initializers.add(named value)
+            v = self.new_value(op[1])
+            before = self.snapshot()
+            if op[1] not in g.initializers:
+                g.initializers.add(v)
+                self.gops.append(["nv", self.V(v)])
+            self.finish(kind, before)
+        elif kind == "init-set":  # graph.initializers[key] = unnamed value: the container names it
+            v = self.new_value(None)
+            before = self.snapshot()
+            if op[1] not in g.initializers:
+                g.initializers[op[1]] = v
+                self.gops.append(["sv", self.V(v), op[1]])
+                self.gops.append(["nv", self.V(v)])
+                user_set.add(("v", self.V(v)))
+            self.finish(kind, before, user_set)
+        elif kind == "init-pop":
+            before = self.snapshot()
+            keys = list(g.initializers)
+            if keys:
+                g.initializers.pop(keys[op[1] % len(keys)])
+            self.finish(kind, before)
+        elif kind == "set-value":
+            cand = [i for i, v in enumerate(self.values) if not v.is_initializer()]
+            before = self.snapshot()
+            if cand:
+                i = cand[op[1] % len(cand)]
+                self.values[i].name = op[2]
+                self.gops.append(["sv", i, op[2]])
+                user_set.add(("v", i))
+            self.finish(kind, before, user_set)
+        elif kind == "set-node":
+            before = self.snapshot()
+            if self.nodes:
+                i = op[1] % len(self.nodes)
+                self.nodes[i].name = op[2]
+                self.gops.append(["sn", i, op[2]])
+                user_set.add(("n", i))
+            self.finish(kind, before, user_set)
         else:
             raise ValueError(kind)
 
     def impl(self):
-        auth = self.g._name_authority  # observation only
+        auth = self.g._name_authority  # observation only, for the correspondence (not for the oracle)
         return {
-            "names": self.after,
+            "vnames": [v.name for v in self.values],
+            "nnames": [n.name for n in self.nodes],
             "vc": auth._value_counter,
             "nc": auth._node_counter,
-            "vnames": sorted(auth._value_names),
-            "nnames": sorted(auth._node_names),
+            "vseen": sorted(auth._value_names),
+            "nseen": sorted(auth._node_names),
+            "vown": sorted(self.vowned),
+            "nown": sorted(self.nowned),
         }
+
+    def request(self):
+        nv, nn = len(self.values), len(self.nodes)
+        return {"m": "names.ghist", "vnames": self.vinit[:nv], "nnames": self.ninit[:nn], "ops": self.gops}
 
 
 def _pick_name(rng, pool, p_none=0.5):
     return None if rng.random() < p_none else rng.choice(pool)
 
 
-def _node_spec(rng):
-    return {"op": rng.choice(OPS), "name": _pick_name(rng, NODE_POOL),
+def _node_spec(rng, nvals=0):
+    ins = [rng.randrange(nvals) if nvals and rng.random() < 0.8 else None for _ in range(rng.choice([0, 0, 1, 2]))]
+    return {"op": rng.choice(OPS), "name": _pick_name(rng, NODE_POOL), "ins": ins,
             "outs": [_pick_name(rng, VAL_POOL) for _ in range(rng.choice([0, 1, 1, 1, 2, 3]))]}
 
 
 def _one_history(ctx: Ctx, ir, size: int):
-    """generate a script step by step (choices depend on the sizes of the live / detached lists only)"""
+    """generate a script step by step (choices depend only on the sizes of the tracked lists)"""
     rng = ctx.rng
     ex = _Exec(ir)
     script = []
@@ -185,22 +352,34 @@ def _one_history(ctx: Ctx, ir, size: int):
     init_names = [rng.choice([x for x in VAL_POOL if x]) for _ in range(rng.choice([0, 0, 1, 2]))]
     if len(set(init_names)) != len(init_names):
         init_names = init_names[:1]
-    do(["Graph", [_pick_name(rng, VAL_POOL) for _ in range(rng.choice([0, 1, 2, 3]))], init_names,
-        [_node_spec(rng) for _ in range(rng.choice([0, 1, 2, 3]))]])
+    n_in = rng.choice([0, 1, 2, 3])
+    node_specs = [_node_spec(rng, n_in + len(init_names)) for _ in range(rng.choice([0, 1, 2, 3]))]
+    outs = []
+    for _ in range(rng.choice([0, 0, 1, 2])):
+        if node_specs and rng.random() < 0.6:
+            k = rng.randrange(len(node_specs))
+            if node_specs[k]["outs"]:
+                outs.append(["nodeout", k, rng.randrange(len(node_specs[k]["outs"]))])
+                continue
+        outs.append(["new", _pick_name(rng, VAL_POOL, 0.2)])
+    do(["Graph", [_pick_name(rng, VAL_POOL) for _ in range(n_in)], init_names, node_specs, outs, rng.random() < 0.15])
     for _ in range(size):
         live = len(ex.g)
+        nv = len(ex.values)
         r = rng.random()
-        if r < 0.25:
-            do(["append", _node_spec(rng)])
-        elif r < 0.4:
-            do(["extend", [_node_spec(rng) for _ in range(rng.choice([0, 1, 2, 3]))]])
-        elif r < 0.6 and live:
-            specs = [_node_spec(rng) for _ in range(rng.choice([1, 1, 2]))]
+        if r < 0.18:
+            do(["append", _node_spec(rng, nv)])
+        elif r < 0.28:
+            do(["extend", [_node_spec(rng, nv) for _ in range(rng.choice([0, 1, 2, 3]))]])
+        elif r < 0.40 and live:
+            specs = [_node_spec(rng, nv) for _ in range(rng.choice([1, 1, 2]))]
             do([rng.choice(["insert_before", "insert_after"]), rng.randrange(live), specs,
                 len(specs) == 1 and rng.random() < 0.5])
-        elif r < 0.78 and live:
+        elif r < 0.45:
+            do(["node-graph", _node_spec(rng, nv)])
+        elif r < 0.57 and live:
             do(["remove", rng.randrange(live)])
-        elif r < 0.95 and ex.detached:
+        elif r < 0.67 and ex.detached:
             idx = rng.randrange(len(ex.detached))
             rename = None
             if rng.random() < 0.3:
@@ -208,44 +387,136 @@ def _one_history(ctx: Ctx, ir, size: int):
                           "outs": [[rng.random() < 0.5, _pick_name(rng, VAL_POOL, 0.3)] for _ in ex.detached[idx].outputs]}
             which = rng.choice(["append", "extend", "insert_after"]) if live else "append"
             do(["readd", idx, rename, which, rng.randrange(live) if live else 0])
-        elif live:
+        elif r < 0.70 and live:
             do(["append-present", rng.randrange(live)])
+        elif r < 0.78:
+            do([rng.choice(["in-append", "in-insert", "out-append"]), _pick_name(rng, VAL_POOL, 0.2),
+                rng.randrange(nv) if nv and rng.random() < 0.3 else None])
+        elif r < 0.81:
+            do([rng.choice(["in-pop", "out-pop"]), rng.randrange(4)])
+        elif r < 0.86:
+            do(["init-add", rng.choice([x for x in VAL_POOL if x])])
+        elif r < 0.89:
+            do(["init-set", rng.choice([x for x in VAL_POOL if x])])
+        elif r < 0.91:
+            do(["init-pop", rng.randrange(4)])
+        elif r < 0.97:
+            do(["set-value", rng.randrange(64), _pick_name(rng, VAL_POOL, 0.1)])
+        else:
+            do(["set-node", rng.randrange(64), _pick_name(rng, NODE_POOL, 0.1)])
     return ex, script
 
 
-def _check_authority_case(ctx, ex, script, out):
-    gen = sum(1 for p in ex.prim if p[1] is None)
-    shaped = sum(1 for p in ex.prim if p[1] is not None and (p[1].startswith("val_") or p[1].startswith("node_")))
+def _hist_ops(ex):
+    """the authority-level view (`names.hist`, model function `run`): every registration is a call with the
+    name the object has at that moment; record-only registrations are calls with an explicit name"""
+    names = {"v": list(ex.vinit), "n": list(ex.ninit)}
+    own = {"v": set(), "n": set()}
+    ops = []
+    for idx, op in enumerate(ex.gops):
+        k, i = op[0], op[1]
+        if k == "rv":
+            ops.append(["v", names["v"][i]]); own["v"].add(i)
+            names["v"][i] = ex.gop_after.get(idx, names["v"][i])
+        elif k == "rn":
+            ops.append(["n", names["n"][i], op[2]]); own["n"].add(i)
+            names["n"][i] = ex.gop_after.get(idx, names["n"][i])
+        elif k == "nv":
+            own["v"].add(i)
+            if names["v"][i] is not None:
+                ops.append(["v", names["v"][i]])
+        elif k == "sv":
+            if names["v"][i] != op[2]:
+                names["v"][i] = op[2]
+                if i in own["v"] and op[2] is not None:
+                    ops.append(["v", op[2]])
+        elif k == "sn":
+            names["n"][i] = op[2]
+            if i in own["n"] and op[2] is not None:
+                ops.append(["n", op[2], ""])
+        elif k == "dv":
+            own["v"].discard(i)
+        elif k == "dn":
+            own["n"].discard(i)
+    return ops
+
+
+def _check_authority_case(ctx, ex, script, out, out_hist=None):
+    gen = sum(1 for op in ex.gops if op[0] in ("rv", "rn"))
+    shaped = sum(1 for n in ex.vinit + ex.ninit if n is not None and (n.startswith("val_") or n.startswith("node_")))
     case = {"part": "authority", "script": script}
+    kinds = {op[0] for op in script}
     ctx.case(
         case,
         nontrivial=gen > 0,
-        sample={"part": "authority", "script": script[:6], "prim": ex.prim[:12]},
+        sample={"part": "authority", "script": script[:5], "gops": ex.gops[:14]},
         part="authority",
-        prim_ops=min(len(ex.prim) // 8 * 8, 64),
-        generated=min(gen // 4 * 4, 32),
+        model_ops=min(len(ex.gops) // 8 * 8, 64),
         explicit_generated_shape=min(shaped // 4 * 4, 32),
+        counter_ge_10=ex.g._name_authority._value_counter >= 10,
+        via_function=script[0][5],
     )
+    for k in kinds:
+        ctx.count(f"authority_op={k}")
+    if ex.implicit:
+        ctx.count("authority_implicit_attach", ex.implicit)
     for sig, what in ex.oracle_failures:
         ctx.fail(sig, what, case)
     impl = ex.impl()
-    model = {
-        "names": out.get("names"),
-        "vc": out.get("vc"),
-        "nc": out.get("nc"),
-        "vnames": sorted(out.get("vnames", [])),
-        "nnames": sorted(out.get("nnames", [])),
-    }
+    model = {k: (sorted(out.get(k, [])) if k in ("vseen", "nseen", "vown", "nown") else out.get(k)) for k in impl}
     if model != impl and not ex.oracle_failures:
-        ctx.disagree("names.hist model != Graph/NameAuthority", case, model, impl)
+        ctx.disagree("names.ghist model != Graph/NameAuthority", case, model, impl)
+    if out_hist is not None and not ex.oracle_failures:
+        h = {"vc": out_hist.get("vc"), "nc": out_hist.get("nc"), "vseen": sorted(out_hist.get("vnames", [])),
+             "nseen": sorted(out_hist.get("nnames", []))}
+        hi = {k: impl[k] for k in h}
+        # the rename hook records the *new* name with an empty op_type: only seen sets / counters are comparable
+        if h != hi:
+            ctx.disagree("names.hist (authority level) != NameAuthority", case, h, hi)
 
 
 def _replay_authority(ctx, ir, script):
     ex = _Exec(ir)
     for op in script:
         ex.step(op)
-    out = lean_batch_parallel([{"m": "names.hist", "ops": ex.prim}])[0]
-    _check_authority_case(ctx, ex, script, out)
+    out, out_hist = lean_batch_parallel([ex.request(), {"m": "names.hist", "ops": _hist_ops(ex)}])
+    _check_authority_case(ctx, ex, script, out, out_hist)
+
+
+def _clone_case(ctx, ir, ex, script):
+    """Graph.clone(): the clone's authority is seeded by the constructor with the cloned names; then add unnamed nodes"""
+    try:
+        g2 = ex.g.clone()
+    except Exception:  # the graph uses values it does not own (detached nodes' outputs): clone refuses
+        ctx.count("authority_clone_rejected")
+        return None
+    ex2 = _Exec(ir)
+    ex2.g = ex2.api = g2
+    for v in list(g2.inputs) + list(g2.outputs) + list(g2.initializers.values()):
+        ex2.gops.append(["nv", ex2.V(v)])
+    for v in list(g2.inputs) + list(g2.initializers.values()):
+        ex2.gops.append(["rv", ex2.V(v)])
+    for n in g2:
+        ex2.N(n)
+    # the model's input = the names the clone's objects were created with = the names of the originals
+    g = ex.g
+    for a, b2 in list(zip(g.inputs, g2.inputs)) + list(zip(g.outputs, g2.outputs)) + \
+            list(zip(g.initializers.values(), g2.initializers.values())) + \
+            [(x, y) for n1, n2 in zip(g, g2) for x, y in zip(n1.outputs, n2.outputs)]:
+        ex2.vinit[ex2.V(b2)] = a.name
+    for n1, n2 in zip(g, g2):
+        ex2.ninit[ex2.N(n2)] = n1.name
+    ex2.reg_nodes(list(g2))
+    user_set = set()
+    for n1, n2 in zip(g, g2):  # the cloner resets the name of a node that was anonymous in the original
+        if n1.name is None:
+            ex2.gops.append(["sn", ex2.N(n2), None])
+            user_set.add(("n", ex2.N(n2)))
+    ex2._mark = 0
+    ex2.finish("clone", (list(ex2.vinit), list(ex2.ninit)), user_set)
+    for _ in range(2):
+        ex2.step(["append", _node_spec(ctx.rng, len(ex2.values))])
+    return ex2
 
 
 def _run_authority(ctx: Ctx, ir) -> None:
@@ -255,10 +526,29 @@ def _run_authority(ctx: Ctx, ir) -> None:
     runs = []
     for i in range(ctx.pick(1500, 20000)):
         size = ctx.rng.choice([2, 4, 8, 16]) if i % 10 else 40
-        runs.append(_one_history(ctx, ir, size))
-    outs = lean_batch_parallel([{"m": "names.hist", "ops": ex.prim} for ex, _ in runs])
-    for (ex, script), out in zip(runs, outs):
-        _check_authority_case(ctx, ex, script, out)
+        ex, script = _one_history(ctx, ir, size)
+        runs.append((ex, script))
+        if i % 7 == 0:
+            ex2 = _clone_case(ctx, ir, ex, script)
+            if ex2 is not None:
+                runs.append((ex2, script + [["clone+2 appends"]]))
+    reqs = []
+    for ex, _ in runs:
+        reqs += [ex.request(), {"m": "names.hist", "ops": _hist_ops(ex)}]
+    outs = lean_batch_parallel(reqs)
+    for k, (ex, script) in enumerate(runs):
+        if script[-1] == ["clone+2 appends"]:
+            ctx.count("authority_op=clone")
+            case = {"part": "authority", "script": script}
+            for sig, what in ex.oracle_failures:
+                ctx.fail(sig.replace("authority:", "authority:clone:"), what, case)
+            impl = ex.impl()
+            out = outs[2 * k]
+            model = {kk: (sorted(out.get(kk, [])) if kk in ("vseen", "nseen", "vown", "nown") else out.get(kk)) for kk in impl}
+            if model != impl and not ex.oracle_failures:
+                ctx.disagree("names.ghist model != Graph.clone()+append", case, model, impl)
+            continue
+        _check_authority_case(ctx, ex, script, outs[2 * k], outs[2 * k + 1])
 
 
 # --------------------------------------------------------------------------- part B (NameFixPass)
@@ -270,16 +560,19 @@ INAMES = ["t", "t_1", "t_2", "t_1_1", "v", "v_1", "w", "w_1", "w_2"]
 
 class _SpecGen:
     """Random model *specifications* (JSON): the same object is sent to the Lean model and built
-    into real IR objects.  Ids are creation indices."""
+    into real IR objects.  Ids are creation indices.  `fwd` = probability that a node input is a
+    *forward* reference (a value defined later in the same or an enclosing graph: unsorted graphs, forward
+    captures); `wild` = probability of an ill-scoped reference (any value, sibling scopes included)."""
 
-    def __init__(self, rng, max_depth, wild):
-        self.rng, self.max_depth, self.wild = rng, max_depth, wild
+    def __init__(self, rng, max_depth, wild, fwd=0.0, vpool=None, npool=None):
+        self.rng, self.max_depth, self.wild, self.fwd = rng, max_depth, wild, fwd
+        self.vpool, self.npool = vpool or VNAMES, npool or NNAMES
         self.vnames: list = []
         self.nnames: list = []
         self.init_of: list = []
         self.dicts: list = []
         self.all_vals: list[int] = []
-        self.producible: set[int] = set()
+        self.built_graphs: list = []
 
     def value(self, name, init_of=None):
         self.vnames.append(name)
@@ -287,73 +580,89 @@ class _SpecGen:
         self.all_vals.append(len(self.vnames) - 1)
         return len(self.vnames) - 1
 
-    def graph(self, depth, visible, is_graph=True):
+    def graph(self, depth, visible, outer_all, n_nodes=None):
         rng = self.rng
         g = len(self.dicts)
         self.dicts.append([])
-        ins = [self.value(rng.choice(VNAMES)) for _ in range(rng.choice([0, 1, 1, 2]))]
+        ins = [self.value(rng.choice(self.vpool)) for _ in range(rng.choice([0, 1, 1, 2]))]
         d = []
-        if is_graph:
-            keys = rng.sample(INAMES, rng.choice([0, 0, 1, 2, 3]))
-            for k in keys:
-                if rng.random() < 0.15 and ins and self.init_of[ins[-1]] is None and self.vnames[ins[-1]] not in [x[0] for x in d]:
-                    v = ins[-1]  # a graph input that is also an initializer
-                    if not self.vnames[v]:
-                        self.vnames[v] = k
-                    self.init_of[v] = g
-                    d.append([self.vnames[v], v])
-                elif k not in [x[0] for x in d]:
-                    d.append([k, self.value(k, g)])
-            self.dicts[g] = d
-        own = ins + [e[1] for e in d if e[1] not in ins]
+        for k in rng.sample(INAMES, rng.choice([0, 0, 1, 2, 3])):
+            if rng.random() < 0.15 and ins and self.init_of[ins[-1]] is None and self.vnames[ins[-1]] not in [x[0] for x in d]:
+                v = ins[-1]  # a graph input that is also an initializer
+                if not self.vnames[v]:
+                    self.vnames[v] = k
+                self.init_of[v] = g
+                d.append([self.vnames[v], v])
+            elif k not in [x[0] for x in d]:
+                d.append([k, self.value(k, g)])
+        self.dicts[g] = d
+        inits = [e[1] for e in d if e[1] not in ins]
+        if n_nodes is None:
+            n_nodes = rng.choice([0, 1, 2, 2, 3])
+        node_outs = [[self.value(rng.choice(self.vpool)) for _ in range(rng.choice([0, 1, 1, 1, 2]))] for _ in range(n_nodes)]
+        own_all = ins + inits + [v for o in node_outs for v in o]
+        own = ins + inits
         nodes = []
-        for _ in range(rng.choice([0, 1, 2, 2, 3])):
+        for k in range(n_nodes):
             cand = visible + own
-            n_in = rng.choice([0, 1, 1, 2])
             inputs = []
-            for _ in range(n_in):
+            for _ in range(rng.choice([0, 1, 1, 2])):
                 r = rng.random()
-                if r < 0.1 or not cand:
+                if r < 0.1:
                     inputs.append(None)
                 elif r < 0.1 + self.wild and self.all_vals:
-                    inputs.append(rng.choice(self.all_vals))  # deliberately ill-scoped / forward reference
-                else:
+                    inputs.append(rng.choice(self.all_vals))  # deliberately ill-scoped
+                elif r < 0.1 + self.wild + self.fwd and (own_all or outer_all):
+                    inputs.append(rng.choice(own_all + outer_all))  # possibly defined later (forward capture)
+                elif cand:
                     inputs.append(rng.choice(cand))
+                else:
+                    inputs.append(None)
             attrs = []
             if depth < self.max_depth and rng.random() < 0.45:
                 for _ in range(rng.choice([1, 1, 2])):
-                    if rng.random() < 0.6:
-                        attrs.append(["g", self.graph(depth + 1, visible + own)])
+                    r = rng.random()
+                    if r < 0.05:
+                        attrs.append(["ref", None])  # a reference attribute of graph type: no graph to visit
+                    elif self.wild and r < 0.1 and self.built_graphs:
+                        attrs.append(["g", rng.choice(self.built_graphs)])  # the same Graph object held twice
+                    elif r < 0.6:
+                        attrs.append(["g", self.graph(depth + 1, visible + own, outer_all + own_all)])
                     else:
-                        attrs.append(["gs", [self.graph(depth + 1, visible + own) for _ in range(rng.choice([0, 1, 2]))]])
-            outs = [self.value(rng.choice(VNAMES)) for _ in range(rng.choice([0, 1, 1, 1, 2]))]
-            self.nnames.append(rng.choice(NNAMES))
-            nodes.append({"n": len(self.nnames) - 1, "ins": inputs, "outs": outs, "attrs": attrs})
-            own = own + [v for v in inputs if v is not None and v not in own and v not in visible] + outs
-        k = rng.choice([0, 1, 1, 2])
-        pool = [v for v in own]
-        outs = [rng.choice(pool) for _ in range(k)] if pool else []
-        if self.wild and rng.random() < self.wild and visible:
-            outs.append(rng.choice(visible))
-        return {"g": g, "isGraph": is_graph, "ins": ins, "outs": outs, "nodes": nodes}
+                        attrs.append(["gs", [self.graph(depth + 1, visible + own, outer_all + own_all)
+                                             for _ in range(rng.choice([0, 1, 2]))]])
+            self.nnames.append(rng.choice(self.npool))
+            nodes.append({"n": len(self.nnames) - 1, "ins": inputs, "outs": node_outs[k], "attrs": attrs})
+            own = own + node_outs[k]
+        outs = [rng.choice(own_all) for _ in range(rng.choice([0, 1, 1, 2]))] if own_all else []
+        res = {"g": g, "isGraph": True, "ins": ins, "outs": outs, "nodes": nodes}
+        self.built_graphs.append(res)
+        return res
 
-    def spec(self):
+    def spec(self, n_nodes=None):
         rng = self.rng
-        tops = [self.graph(0, [])]
+        tops = [self.graph(0, [], [], n_nodes)]
         for _ in range(rng.choice([0, 0, 1, 2])):
-            tops.append(self.graph(0, [], is_graph=False))
+            tops.append(self.graph(0, [], []))  # a function: its underlying graph may hold initializers too
+        self.built_graphs = []
         return {"vnames": self.vnames, "nnames": self.nnames, "initOf": self.init_of, "dicts": self.dicts, "tops": tops}
 
 
+def _subgraphs(n):
+    for kind, x in n["attrs"]:
+        if kind == "g":
+            yield x
+        elif kind == "gs":
+            yield from x
+
+
 def _lean_graph(g):
-    return {"g": g["g"], "isGraph": g["isGraph"], "ins": g["ins"], "outs": g["outs"], "nodes": [_lean_node(n) for n in g["nodes"]]}
+    # every graph-like has an initializer dictionary to visit (a Function: the one of its underlying graph)
+    return {"g": g["g"], "isGraph": True, "ins": g["ins"], "outs": g["outs"], "nodes": [_lean_node(n) for n in g["nodes"]]}
 
 
 def _lean_node(n):
-    subs = []
-    for kind, x in n["attrs"]:
-        subs += [_lean_graph(x)] if kind == "g" else [_lean_graph(y) for y in x]
-    return {"n": n["n"], "ins": n["ins"], "outs": n["outs"], "subs": subs}
+    return {"n": n["n"], "ins": n["ins"], "outs": n["outs"], "subs": [_lean_graph(x) for x in _subgraphs(n)]}
 
 
 def _fix_request(spec):
@@ -373,11 +682,9 @@ class _Built:
                 # initializers carry a backing tensor whose name must follow the value's name
                 self.values[v] = ir.Value(name=k, const_value=ir.tensor([1.0], name=k))
         self.nodes = [None] * len(spec["nnames"])
-        self.graphs = [None] * len(spec["dicts"])  # Graph or Function per gid
+        self.graphs = [None] * len(spec["dicts"])  # the Graph per gid (for a function: its underlying graph)
         tops = [self.build_graph(t) for t in spec["tops"]]
         funcs = [ir.Function("d", f"f{i}", "", graph=g, attributes=[]) for i, g in enumerate(tops[1:])]
-        for t, f in zip(spec["tops"][1:], funcs):
-            self.graphs[t["g"]] = f
         self.model = ir.Model(tops[0], ir_version=10, functions=funcs)
         # names as specified (construction auto-names everything that is None)
         for i, v in enumerate(self.values):
@@ -388,12 +695,16 @@ class _Built:
 
     def build_graph(self, g):
         ir = self.ir
+        if self.graphs[g["g"]] is not None:  # the same Graph object held by two attributes
+            return self.graphs[g["g"]]
         nodes = []
         for n in g["nodes"]:
             attrs = []
             for j, (kind, x) in enumerate(n["attrs"]):
                 if kind == "g":
                     attrs.append(ir.AttrGraph(f"a{j}", self.build_graph(x)))
+                elif kind == "ref":
+                    attrs.append(ir.RefAttr(f"a{j}", "outer_attr", ir.AttributeType.GRAPH))
                 else:
                     attrs.append(ir.AttrGraphs(f"a{j}", [self.build_graph(y) for y in x]))
             node = ir.Node("", "Op", [None if v is None else self.values[v] for v in n["ins"]], attrs,
@@ -439,7 +750,9 @@ class _Built:
         for n in self.nodes:
             attrs = []
             for a in n.attributes.values():
-                if a.type == ir.AttributeType.GRAPH:
+                if a.is_ref():
+                    attrs.append((a.name, "ref", a.ref_attr_name))
+                elif a.type == ir.AttributeType.GRAPH:
                     attrs.append((a.name, "g", gid[id(a.value)]))
                 else:
                     attrs.append((a.name, "gs", [gid[id(x)] for x in a.value]))
@@ -457,7 +770,8 @@ def _scope_lists(spec, dicts_now):
     """Independent restatement of the scoping rule on the spec structure: for every graph the list
     of values that must carry pairwise different names (values recorded in enclosing scopes before
     the graph is entered + the graph's own values) and the list of its nodes; `scoped` says whether
-    every value is only ever met where it is visible."""
+    every value is only ever met where it is visible.  On entering a graph its inputs, outputs,
+    initializers and the outputs of its own nodes are recorded."""
     lists, nodelists = [], []
     ok = [True]
 
@@ -471,15 +785,14 @@ def _scope_lists(spec, dicts_now):
             if v not in vis:
                 vis.append(v)
 
-        for v in g["ins"] + g["outs"] + ([v for _, v in dicts_now[g["g"]]] if g["isGraph"] else []):
+        for v in g["ins"] + g["outs"] + [v for _, v in dicts_now[g["g"]]] + [v for n in g["nodes"] for v in n["outs"]]:
             meet(v)
         for n in g["nodes"]:
             for v in n["ins"] + n["outs"]:
                 if v is not None:
                     meet(v)
-            for kind, x in n["attrs"]:
-                for sub in [x] if kind == "g" else x:
-                    graph(sub, vis, seen)
+            for sub in _subgraphs(n):
+                graph(sub, vis, seen)
         lists.append(vis)
         nodelists.append([n["n"] for n in g["nodes"]])
 
@@ -494,6 +807,45 @@ def _scope_lists(spec, dicts_now):
     return ok[0], lists, nodelists
 
 
+def _ownership(spec, dicts_now):
+    """Ownership view, independent of any traversal order: every graph owns its inputs, outputs, initializers and
+    the outputs of its nodes.  Returns (well_owned, [(owned values of G and of all its ancestors)]) where
+    well_owned = every value has one owner, every node input is owned by the node's graph or an ancestor of it,
+    no graph object occurs twice."""
+    owner, ok, groups, seen_graphs = {}, [True], [], set()
+
+    def own(g):
+        return g["ins"] + g["outs"] + [v for _, v in dicts_now[g["g"]]] + [v for n in g["nodes"] for v in n["outs"]]
+
+    def claim(g, top):
+        if g["g"] in seen_graphs:
+            ok[0] = False
+            return
+        seen_graphs.add(g["g"])
+        for v in own(g):
+            if owner.setdefault(v, (g["g"], top)) != (g["g"], top):
+                ok[0] = False
+        for n in g["nodes"]:
+            for sub in _subgraphs(n):
+                claim(sub, top)
+
+    def walk(g, anc, anc_vals):
+        mine = anc_vals + [v for v in own(g) if v not in anc_vals]
+        groups.append(sorted(set(mine)))
+        for n in g["nodes"]:
+            for v in n["ins"]:
+                if v is not None and (v not in owner or owner[v][0] not in anc + [g["g"]]):
+                    ok[0] = False
+            for sub in _subgraphs(n):
+                walk(sub, anc + [g["g"]], mine)
+
+    for i, t in enumerate(spec["tops"]):
+        claim(t, i)
+    for t in spec["tops"]:
+        walk(t, [], [])
+    return ok[0], groups
+
+
 def _closed(spec):
     """independent restatement of `Closed`: an initializer mentioned under a top-level graph belongs to a Graph
     under that top-level graph"""
@@ -501,14 +853,12 @@ def _closed(spec):
         ment, graphs = set(), set()
 
         def walk(g):
-            if g["isGraph"]:
-                graphs.add(g["g"])
+            graphs.add(g["g"])
             ment.update(g["ins"] + g["outs"])
             for n in g["nodes"]:
                 ment.update(v for v in n["ins"] + n["outs"] if v is not None)
-                for kind, x in n["attrs"]:
-                    for sub in [x] if kind == "g" else x:
-                        walk(sub)
+                for sub in _subgraphs(n):
+                    walk(sub)
 
         walk(t)
         if any(spec["initOf"][v] is not None and spec["initOf"][v] not in graphs for v in ment):
@@ -526,7 +876,7 @@ def _namefix_oracle(ctx, spec, before, after, struct_before, struct_after, raise
     if raised is not None:
         if _closed(spec):
             fails.append((f"NameFixPass:raises:{raised}", "the pass raised on a model whose initializers are keyed by their names"))
-        return fails, False
+        return fails, False, False
     if struct_before != struct_after:
         fails.append(("NameFixPass:structure-changed", "something other than names / initializer keys changed"))
     if not after.pop("const_ok", True):
@@ -559,15 +909,27 @@ def _namefix_oracle(ctx, spec, before, after, struct_before, struct_after, raise
             if len(set(names)) != len(names):
                 fails.append(("NameFixPass:duplicate-value-name", f"value names {names} visible in one graph"))
             orig = [before["vnames"][v] for v in L]
-            for v in L:
+            for k, v in enumerate(L):
                 o = before["vnames"][v]
                 if _truthy(o) and orig.count(o) == 1 and vn[v] != o:
                     fails.append(("NameFixPass:unique-value-name-changed", f"{o!r} -> {vn[v]!r} among {orig}"))
+                if _truthy(o) and o not in orig[:k] and vn[v] != o:  # L is in processing order (oracle only, no theorem)
+                    fails.append(("NameFixPass:first-holder-renamed", f"the first value named {o!r} became {vn[v]!r}"))
+    # ownership-based uniqueness, independent of traversal order and of the `scoped` restatement: the values owned
+    # by a graph and by its enclosing graphs (wherever they are defined: forward captures included) differ pairwise
+    well_owned, groups = _ownership(spec, after["dicts"])
+    if well_owned:
+        for G in groups:
+            names = [vn[v] for v in G]
+            if len(set(names)) != len(names):
+                fails.append(("NameFixPass:duplicate-value-name-owned", f"values owned by a graph and its enclosing graphs: {names}"))
+        if not scoped:
+            fails.append(("NameFixPass:well-owned-but-not-scoped", "harness inconsistency: ownership rule vs scoping rule"))
     if second is not None and scoped:
         modified2, after2 = second
         if modified2 or after2 != after:
             fails.append(("NameFixPass:not-idempotent", "a second run changed names or reported modified=True"))
-    return fails, scoped
+    return fails, scoped, well_owned
 
 
 def _run_one_fix(ir, spec):
@@ -602,12 +964,13 @@ def _check_fix_case(ctx, ir, spec, out, origin):
             or before["nnames"] != spec["nnames"]:
         ctx.count("namefix_spec_not_realised")
         return
-    fails, scoped = _namefix_oracle(ctx, spec, before, after, sb, sa, raised, second, case)
+    fails, scoped, well_owned = _namefix_oracle(ctx, spec, before, after, sb, sa, raised, second, case)
     changed = sum(1 for a, b2 in zip(before["vnames"] + before["nnames"], after["vnames"] + after["nnames"]) if a != b2)
     depth = _depth(spec)
     ctx.case(case, nontrivial=changed > 0,
              sample={"part": "namefix", "vnames": spec["vnames"], "nnames": spec["nnames"], "after": after["vnames"]},
-             part="namefix", origin=origin, scoped=scoped, depth=depth, tops=len(spec["tops"]),
+             part="namefix", origin=origin, scoped=scoped, well_owned=well_owned, depth=depth, tops=len(spec["tops"]),
+             nested_inits=any(d for d in spec["dicts"][1:]), forward_ref=_has_forward(spec),
              values=min(len(spec["vnames"]) // 4 * 4, 24), renamed=min(changed, 8),
              inits=min(sum(len(d) for d in spec["dicts"]), 6))
     for sig, what in fails:
@@ -616,6 +979,11 @@ def _check_fix_case(ctx, ir, spec, out, origin):
     if raised is None and (out.get("scoped") and out.get("disjoint")) != scoped:
         ctx.disagree("scoping rule: scopedB/disjoint (Lean) != Python restatement", case,
                      {"scoped": out.get("scoped"), "disjoint": out.get("disjoint")}, {"scoped": scoped})
+    lean_owned = bool(out.get("wellOwned") and out.get("ownedDisjoint") and out.get("disjoint") and out.get("nodup"))
+    if raised is None and lean_owned != well_owned:
+        ctx.disagree("ownership rule: wellOwnedB/ownedLists (Lean) != Python restatement", case, lean_owned, well_owned)
+    if lean_owned and not out.get("scoped"):
+        ctx.disagree("C15_scoped_of_well_owned contradicted by the driver", case, out, None)
     if out.get("closed") != _closed(spec):
         ctx.disagree("Closed (Lean) != Python restatement", case, out.get("closed"), _closed(spec))
     ctx.count("namefix_PassWF=" + str(bool(out.get("scoped") and out.get("disjoint") and out.get("closed") and out.get("nodup"))))
@@ -629,9 +997,32 @@ def _check_fix_case(ctx, ir, spec, out, origin):
 
 
 def _depth(spec):
-    def dg(g):
-        return 1 + max([0] + [dg(s) for n in g["nodes"] for kind, x in n["attrs"] for s in ([x] if kind == "g" else x)])
+    def dg(g, seen=()):
+        if g["g"] in seen:
+            return 0
+        return 1 + max([0] + [dg(s, seen + (g["g"],)) for n in g["nodes"] for s in _subgraphs(n)])
     return max(dg(t) for t in spec["tops"])
+
+
+def _has_forward(spec):
+    """some node (possibly in a nested graph) uses a value that is produced by a node visited later"""
+    order, uses = {}, []
+
+    def walk(g, done):
+        if g["g"] in done:
+            return
+        for n in g["nodes"]:
+            for v in n["ins"]:
+                if v is not None:
+                    uses.append((len(order), v))
+            for sub in _subgraphs(n):
+                walk(sub, done + (g["g"],))
+            for v in n["outs"]:
+                order.setdefault(v, len(order))
+
+    for t in spec["tops"]:
+        walk(t, ())
+    return any(v in order and order[v] >= pos for pos, v in uses)
 
 
 D30_SPEC = {"vnames": ["w", "w", "w_1"], "nnames": ["a"], "initOf": [None, 0, 0], "dicts": [[["w", 1], ["w_1", 2]]],
@@ -642,37 +1033,124 @@ D31_SPEC = {"vnames": ["t", "t", "t_1"], "nnames": ["n", "n", "n_1"], "initOf": 
                 {"n": 2, "ins": [], "outs": [2], "attrs": []}]}]}
 
 
+# E1 / D221: [A{body: I(x)}, B -> x, C -> x] — the subgraph of A captures B's output, defined later
+D221_SPEC = {"vnames": ["a", "x", "x", "i"], "nnames": ["A", "B", "C", "I"], "initOf": [None] * 4, "dicts": [[], []],
+             "tops": [{"g": 0, "isGraph": True, "ins": [], "outs": [], "nodes": [
+                 {"n": 0, "ins": [], "outs": [0], "attrs": [["g", {"g": 1, "isGraph": True, "ins": [], "outs": [3], "nodes": [
+                     {"n": 3, "ins": [1], "outs": [3], "attrs": []}]}]]},
+                 {"n": 1, "ins": [], "outs": [1], "attrs": []}, {"n": 2, "ins": [], "outs": [2], "attrs": []}]}]}
+# E3: a function whose underlying graph holds an (unused) initializer x next to a node output x
+E3_SPEC = {"vnames": ["x", "x", "x_1"], "nnames": ["n"], "initOf": [1, None, 1], "dicts": [[], [["x", 0], ["x_1", 2]]],
+           "tops": [{"g": 0, "isGraph": True, "ins": [], "outs": [], "nodes": []},
+                    {"g": 1, "isGraph": True, "ins": [], "outs": [1], "nodes": [{"n": 0, "ins": [], "outs": [1], "attrs": []}]}]}
+UNICODE_V = ["t", "tä", "名", "名_1", "tä_1", None, "", "t"]
+UNICODE_N = ["n", "nö", "節", "節_1", None, ""]
+
+
+def _custom_generator_case(ctx, ir, spec):
+    """A custom NameGenerator is outside the Lean model: the postcondition oracle alone is applied."""
+    from onnx_ir.passes.common import naming
+
+    class Gen:
+        def generate_node_name(self, node):
+            return f"{node.op_type}_node"
+
+        def generate_value_name(self, value):
+            return "zz" if not value.name else value.name.upper()
+
+    try:
+        b = _Built(ir, spec)
+    except Exception:
+        return
+    before, sb = b.state(), b.structure()
+    raised = None
+    try:
+        naming.NameFixPass(name_generator=Gen())(b.model)
+    except Exception as e:  # noqa: BLE001
+        raised = type(e).__name__
+    after, sa = b.state(), b.structure()
+    after["const_ok"] = b.const_names_ok()
+    case = {"part": "namefix-custom-generator", "spec": spec}
+    fails, scoped, _ = _namefix_oracle(ctx, spec, before, after, sb, sa, raised, None, case)
+    ctx.case(case, nontrivial=True, part="namefix-custom-generator", scoped=scoped)
+    for sig, what in fails:
+        if "unique-" in sig:
+            continue  # which duplicate keeps the name is still required; kept below
+        ctx.fail(sig.replace("NameFixPass:", "NameFixPass(custom generator):"), what, case)
+
+
 def _run_namefix(ctx: Ctx, ir) -> None:
-    specs = [(D30_SPEC, "witness"), (D31_SPEC, "witness")]
+    specs = [(D30_SPEC, "witness"), (D31_SPEC, "witness"), (D221_SPEC, "witness"), (E3_SPEC, "witness")]
     for c in load_corpus("C15"):
         if c.get("part") == "namefix":
             specs.append((c["spec"], "corpus"))
+    rng = ctx.rng
     for i in range(ctx.pick(2500, 30000)):
-        wild = 0.0 if i % 5 else 0.25
-        gen = _SpecGen(ctx.rng, max_depth=ctx.rng.choice([0, 1, 1, 2, 2, 3]), wild=wild)
-        specs.append((gen.spec(), "random-wild" if wild else "random"))
+        depth = rng.choice([0, 1, 1, 2, 2, 3])
+        if i % 5 == 0:
+            specs.append((_SpecGen(rng, max(depth, 1), wild=0.5, fwd=0.1).spec(), "random-wild"))
+        elif i % 5 in (1, 2):
+            specs.append((_SpecGen(rng, max(depth, 1), wild=0.0, fwd=0.35).spec(), "random-forward"))
+        elif i % 50 == 3:
+            # counters >= 10: many duplicates of one base name in one graph
+            specs.append((_SpecGen(rng, 0, wild=0.0, vpool=["t", "t", "t", "t_3", None], npool=["n", "n", None]).spec(n_nodes=14),
+                          "many-duplicates"))
+        elif i % 50 == 4:
+            specs.append((_SpecGen(rng, depth, wild=0.0, fwd=0.1, vpool=UNICODE_V, npool=UNICODE_N).spec(), "non-ascii"))
+        else:
+            specs.append((_SpecGen(rng, depth, wild=0.0).spec(), "random"))
     outs = lean_batch_parallel([_fix_request(s) for s, _ in specs])
     for (spec, origin), out in zip(specs, outs):
         _check_fix_case(ctx, ir, spec, out, origin)
+    for spec, origin in specs[: ctx.pick(300, 3000)]:
+        _custom_generator_case(ctx, ir, spec)
 
 
 # --------------------------------------------------------------------------- part C (rename_values)
 
-KINDS = ["plain", "init0", "init1", "input+init0"]
+KINDS = ["plain", "init0", "init1", "input+init0", "free"]
 
 
-def _rename_world(ir, kinds, names):
-    """A real two-graph world: value i has kind kinds[i] and name names[i]."""
-    values = [ir.Value(name=n) if k == "plain" else ir.Value(name=n, const_value=ir.tensor([1.0], name=n))
-              for n, k in zip(names, kinds)]
+class _FrozenTensor:
+    """A tensor object whose name cannot be assigned (exercises the rollback of rename_values)."""
+
+    def __init__(self, name):
+        self._name = name
+
+    @property
+    def name(self):
+        return self._name
+
+    @name.setter
+    def name(self, value):
+        raise RuntimeError("this tensor's name is read-only")
+
+
+def _rename_world(ir, kinds, names, tensors=None, frozen=()):
+    """A real two-graph world: value i has kind kinds[i] and name names[i]; tensors[i] = index of its backing
+    tensor (shared when equal) or None; `frozen` = tensor indices that refuse a new name."""
+    if tensors is None:  # every initializer has its own backing tensor
+        tensors, k = [], 0
+        for kd in kinds:
+            tensors.append(None if kd in ("plain", "free") else k)
+            k += kd not in ("plain", "free")
+    tobjs = {}
+    for i, t in enumerate(tensors):
+        if t is not None and t not in tobjs:
+            tobjs[t] = _FrozenTensor(names[i]) if t in frozen else ir.tensor([1.0], name=names[i])
+    values = [ir.Value(name=n, const_value=None if t is None else tobjs[t]) for n, t in zip(names, tensors)]
     plain = [v for v, k in zip(values, kinds) if k == "plain"]
     node = ir.Node("", "Op", [], outputs=plain, name="n")
     g0 = ir.Graph([v for v, k in zip(values, kinds) if k == "input+init0"], [], nodes=[node],
                   initializers=[v for v, k in zip(values, kinds) if k in ("init0", "input+init0")], name="g0")
     g1 = ir.Graph([], [], nodes=[], initializers=[v for v, k in zip(values, kinds) if k == "init1"], name="g1")
     for v, n in zip(plain, names_of(plain, values, names)):
-        v.name = n  # construction names unnamed values
-    return values, [g0, g1]
+        if v.name != n:
+            v.name = n  # construction names unnamed values
+    tlist = [tobjs[t] for t in sorted(tobjs)]
+    tindex = {t: j for j, t in enumerate(sorted(tobjs))}
+    const_of = [None if t is None else tindex[t] for t in tensors]
+    return values, [g0, g1], tlist, const_of, sorted(tindex[t] for t in frozen if t in tindex)
 
 
 def names_of(sub, values, names):
@@ -680,58 +1158,73 @@ def names_of(sub, values, names):
     return [names[idx[id(v)]] for v in sub]
 
 
-def _rename_state(values, graphs):
+def _rename_state(values, graphs, tlist):
     vid = {id(v): i for i, v in enumerate(values)}
     gid = {id(g): i for i, g in enumerate(graphs)}
     return {"vnames": [v.name for v in values],
             "initOf": [gid.get(id(v.graph), -1) if v.is_initializer() else None for v in values],
-            "dicts": [[[k, vid.get(id(v), -1)] for k, v in g.initializers.items()] for g in graphs]}
+            "dicts": [[[k, vid.get(id(v), -1)] for k, v in g.initializers.items()] for g in graphs],
+            "tnames": [t.name for t in tlist]}
 
 
 def _rename_cases(ctx):
-    """all assignments over <= n values (exhaustive), then random ones with repeated pairs"""
+    """all assignments over <= n values (exhaustive), then random ones with repeated pairs, shared and
+    refusing tensors, values owned by no graph, scalar arguments"""
     import itertools
 
     nmax = ctx.pick(3, 4)
     for n in range(1, nmax + 1):
         base = ["a", "b", "c", "d"][:n]
-        kinds_all = KINDS if n <= 3 else KINDS[:3]
+        kinds_all = KINDS[:4] if n <= 3 else KINDS[:3]
         targets = [None] + base + ["z", ""]
         for kinds in itertools.product(kinds_all, repeat=n):
             for assign in itertools.product(targets, repeat=n):
                 pairs = [[i, t] for i, t in enumerate(assign) if t is not None]
-                yield list(kinds), base, pairs, "exhaustive"
+                yield {"kinds": list(kinds), "names": base, "pairs": pairs}, "exhaustive"
     ctx.exhaustive_scopes.append(
-        f"rename_values: every assignment of targets from (old names + 'z' + '') to <= {nmax} values x every "
-        f"plain/initializer(g0)/initializer(g1)/input+initializer kind vector (3 kinds at n=4)")
+        f"rename_values: every assignment of targets from (old names + 'z' + '') to <= {nmax} values x every kind vector "
+        + ("over plain/initializer(g0)/initializer(g1)/input+initializer" if nmax <= 3 else
+           "over plain/initializer(g0)/initializer(g1)/input+initializer for <= 3 values and over the first three kinds for 4 values"))
     rng = ctx.rng
-    for _ in range(ctx.pick(3000, 30000)):
-        n = rng.choice([2, 3, 4, 4])
+    for _ in range(ctx.pick(4000, 40000)):
+        n = rng.choice([1, 2, 3, 4, 4])
         kinds = [rng.choice(KINDS) for _ in range(n)]
         names = []
         for k in kinds:
-            if k == "plain":
+            if k in ("plain", "free"):
                 names.append(rng.choice(["a", "b", "c", "d", "a", None, ""]))
             else:
                 names.append(rng.choice([x for x in ["a", "b", "c", "d", "e", "f"] if x not in names]))
         pairs = [[rng.randrange(n), rng.choice(["a", "b", "c", "d", "z", "", "e"])] for _ in range(rng.choice([1, 2, 3, 4, 5, 6]))]
         rng.shuffle(pairs)
-        yield kinds, names, pairs, "random"
+        case = {"kinds": kinds, "names": names, "pairs": pairs}
+        if rng.random() < 0.5:  # backing tensors: shared between values, on plain values too, some refusing a new name
+            nt = rng.choice([1, 2, 3])
+            case["tensors"] = [rng.randrange(nt) if (k not in ("plain", "free") or (nm is not None and rng.random() < 0.4)) else None
+                               for k, nm in zip(kinds, names)]
+            case["frozen"] = [t for t in range(nt) if rng.random() < 0.25]
+        if len(pairs) == 1 and rng.random() < 0.5:
+            case["scalar"] = True  # rename_values(value, "name") with non-sequence arguments
+        yield case, "random"
 
 
-def _check_rename_case(ctx, ir, kinds, names, pairs, origin, out):
-    case = {"part": "rename", "kinds": kinds, "names": names, "pairs": pairs}
-    values, graphs = _rename_world(ir, kinds, names)
-    before = _rename_state(values, graphs)
+def _check_rename_case(ctx, ir, c, origin, out):
+    kinds, names, pairs = c["kinds"], c["names"], c["pairs"]
+    case = dict(c, part="rename")
+    values, graphs, tlist, const_of, frozen = _rename_world(ir, kinds, names, c.get("tensors"), c.get("frozen", ()))
+    before = _rename_state(values, graphs, tlist)
     raised = None
     try:
-        ir.convenience.rename_values([values[i] for i, _ in pairs], [t for _, t in pairs])
+        if c.get("scalar"):
+            ir.convenience.rename_values(values[pairs[0][0]], pairs[0][1])
+        else:
+            ir.convenience.rename_values([values[i] for i, _ in pairs], [t for _, t in pairs])
     except Exception as e:  # noqa: BLE001
         raised = type(e).__name__
-    after = _rename_state(values, graphs)
+    after = _rename_state(values, graphs, tlist)
     fails = []
     if raised is not None:
-        if after != before:
+        if after != before:  # names, dictionaries, flags AND tensor names (the rollback)
             fails.append((f"rename_values:partial-after-{raised}", f"raised but state changed: {before} -> {after}"))
     else:
         want = dict(enumerate(before["vnames"]))
@@ -744,35 +1237,73 @@ def _check_rename_case(ctx, ir, kinds, names, pairs, origin, out):
         for d0, d1 in zip(before["dicts"], after["dicts"]):
             if sorted(v for _, v in d0) != sorted(v for _, v in d1) or any(after["vnames"][v] != k for k, v in d1):
                 fails.append(("rename_values:initializer-key", "initializers not keyed by their names / a value lost"))
-        if any(v.const_value is not None and v.const_value.name != v.name for v in values):
-            fails.append(("rename_values:const-tensor-name", "the backing tensor of a renamed value kept the old name"))
+        for t in range(len(tlist)):  # a backing tensor follows the values it backs
+            targets = {want[i] for i, ct in enumerate(const_of) if ct == t and want[i] != before["vnames"][i]}
+            if len(targets) == 1 and after["tnames"][t] != next(iter(targets)):
+                fails.append(("rename_values:const-tensor-name", "the backing tensor of a renamed value kept the old name"))
+            if not targets and after["tnames"][t] != before["tnames"][t]:
+                fails.append(("rename_values:const-tensor-name", "a tensor that backs no renamed value changed its name"))
     moved = sum(1 for a, b in zip(before["vnames"], after["vnames"]) if a != b)
     ctx.case(case, nontrivial=bool(pairs), part="rename", origin=origin, raised=raised is not None,
-             n_values=len(kinds), n_pairs=min(len(pairs), 6), n_inits=sum(1 for k in kinds if k != "plain"),
-             permutes=moved >= 2)
+             n_values=len(kinds), n_pairs=min(len(pairs), 6), n_inits=sum(1 for k in kinds if k not in ("plain", "free")),
+             permutes=moved >= 2, shared_tensor=len([t for t in const_of if t is not None]) > len(tlist),
+             frozen_tensor=bool(frozen), rollback=bool(raised == "RuntimeError"), scalar_args=bool(c.get("scalar")),
+             free_value="free" in kinds)
     for sig, what in fails:
         ctx.fail(sig, what, case)
-    model = {"vnames": out.get("vnames"), "initOf": out.get("initOf"), "dicts": out.get("dicts"), "raised": out.get("raised")}
+    model = {k: out.get(k) for k in ("vnames", "initOf", "dicts", "tnames", "raised")}
     impl = dict(after, raised=raised is not None)
     if model != impl and not fails:
         ctx.disagree("names.rename model != convenience.rename_values", case, model, impl)
+    if not frozen and (out.get("raised0") != out.get("raised") or (not out.get("raised") and out.get("vnames0") != out.get("vnames"))):
+        ctx.disagree("renameValues (tensor-free model) != renameValuesT", case, out.get("vnames0"), out.get("vnames"))
 
 
-def _rename_request(kinds, names, pairs):
-    init_of = [None if k == "plain" else (1 if k == "init1" else 0) for k in kinds]
+def _rename_request(ir, c):
+    kinds, names = c["kinds"], c["names"]
+    _, _, tlist, const_of, frozen = _rename_world(ir, kinds, names, c.get("tensors"), c.get("frozen", ()))
+    init_of = [None if k in ("plain", "free") else (1 if k == "init1" else 0) for k in kinds]
     dicts = [[[n, i] for i, (k, n) in enumerate(zip(kinds, names)) if k in ("init0", "input+init0")],
              [[n, i] for i, (k, n) in enumerate(zip(kinds, names)) if k == "init1"]]
-    return {"m": "names.rename", "vnames": names, "initOf": init_of, "dicts": dicts, "pairs": pairs}
+    return {"m": "names.rename", "vnames": names, "initOf": init_of, "dicts": dicts, "pairs": c["pairs"],
+            "constOf": const_of, "tnames": [t.name for t in tlist], "frozen": frozen}
 
 
 def _run_rename(ctx: Ctx, ir) -> None:
     cases = list(_rename_cases(ctx))
     for c in load_corpus("C15"):
         if c.get("part") == "rename":
-            cases.append((c["kinds"], c["names"], c["pairs"], "corpus"))
-    outs = lean_batch_parallel([_rename_request(k, n, p) for k, n, p, _ in cases])
-    for (kinds, names, pairs, origin), out in zip(cases, outs):
-        _check_rename_case(ctx, ir, kinds, names, pairs, origin, out)
+            cases.append(({k: v for k, v in c.items() if k not in ("part", "note")}, "corpus"))
+    outs = lean_batch_parallel([_rename_request(ir, c) for c, _ in cases])
+    for (c, origin), out in zip(cases, outs):
+        _check_rename_case(ctx, ir, c, origin, out)
+
+
+# required buckets of the input distribution (quick tier; thorough has >= 10x): an empty / thin bucket means the
+# generators no longer reach what the evidence claims -> infrastructure error, not a silent pass
+FLOORS = {
+    "part=authority": 1000, "authority_op=in-append": 100, "authority_op=out-append": 100, "authority_op=init-add": 100,
+    "authority_op=init-set": 100, "authority_op=set-value": 150, "authority_op=set-node": 100, "authority_op=readd": 100,
+    "authority_op=node-graph": 150, "authority_op=clone": 20, "via_function=True": 80, "counter_ge_10=True": 100,
+    "part=namefix": 1800, "scoped=False": 150, "forward_ref=True": 250, "nested_inits=True": 600,
+    "origin=many-duplicates": 20, "origin=non-ascii": 20, "part=namefix-custom-generator": 150,
+    "part=rename": 15000, "rollback=True": 30, "shared_tensor=True": 300, "scalar_args=True": 100, "free_value=True": 500,
+    "permutes=True": 2000, "raised=True": 3000, "raised=False": 3000,
+}
+
+
+def _check_floors(ctx):
+    from harness.common import Infra
+
+    drops = {k: v for k, v in ctx.dist.items() if k.startswith(("namefix_unbuildable", "namefix_spec_not_realised",
+                                                                 "authority_clone_rejected", "authority_implicit_attach"))}
+    ctx.extra["dropped_cases"] = drops
+    ctx.extra["coverage_floors"] = FLOORS
+    if ctx.dist.get("namefix_spec_not_realised", 0):
+        raise Infra(f"{ctx.dist['namefix_spec_not_realised']} generated models could not be realised as specified")
+    thin = {k: ctx.dist.get(k, 0) for k, f in FLOORS.items() if ctx.dist.get(k, 0) < f}
+    if thin:
+        raise Infra(f"coverage floor not reached: {thin} (floors {({k: FLOORS[k] for k in thin})})")
 
 
 def run(ctx: Ctx) -> None:
@@ -785,6 +1316,7 @@ def run(ctx: Ctx) -> None:
     _run_authority(ctx, ir)
     _run_namefix(ctx, ir)
     _run_rename(ctx, ir)
+    _check_floors(ctx)
 
 
 def replay(ctx: Ctx, obj: dict) -> None:
@@ -797,7 +1329,7 @@ def replay(ctx: Ctx, obj: dict) -> None:
     elif isinstance(case, dict) and case.get("part") == "authority":
         _replay_authority(ctx, ir, case["script"])
     elif isinstance(case, dict) and case.get("part") == "rename":
-        out = lean_batch_parallel([_rename_request(case["kinds"], case["names"], case["pairs"])])[0]
-        _check_rename_case(ctx, ir, case["kinds"], case["names"], case["pairs"], "replay", out)
+        out = lean_batch_parallel([_rename_request(ir, case)])[0]
+        _check_rename_case(ctx, ir, case, "replay", out)
     else:
         run(ctx)
